@@ -636,11 +636,16 @@ def optInt (fs : List (String × String)) (k : String) : Option (Option Int) :=
   | none => some none
   | some v => (parseInt? v).map some
 
-/-- raw constructor arguments `count:5,start_size:1/10` → the chop after `__post_init__` -/
+/-- `int(count)` of a count given as a float (`count = length / size` is a usual way to write it): truncation
+    towards zero; `floor` gives the same chop because the result is clamped to `>= 1` right away -/
+def countOfRat (c : Rat) : Int := c.floor
+
+/-- raw constructor arguments `count:5` (or `count:15/2`),start_size:1/10` → the chop after `__post_init__` -/
 def parseChop (s : String) : Option Vals := do
   let fs ← parseFields s
   if fs.any (fun kv => (Q.ofString? kv.1).isNone) then none
-  let c ← optInt fs "count"
+  let c ← optRat fs "count"
+  let c := c.map countOfRat
   let st ← optRat fs "start_size"
   let en ← optRat fs "end_size"
   let cc ← optRat fs "c2c_expansion"
